@@ -10,6 +10,7 @@ import Driver.Util
 import Driver.Common
 import Driver.BuildOps
 import Driver.UnitOps
+import Driver.RenderOps
 import FastQr.Model.Version
 import FastQr.Model.Classify
 import FastQr.Spec.Capacity
@@ -71,6 +72,7 @@ def handle (prop : String) (line : String) : String :=
       | "masku" => opMasku args res
       | "pair" => opPair args res
       | "select" => opSelect args res
+      | "term" => opTerm args res
       | _ => { spec := some s!"unknown-op:{op}" }
     v.render
 
